@@ -78,6 +78,11 @@ const preludeCore = `
 (declare-fun str.length (Str) Int)
 (assert (forall ((s Str)) (! (>= (str.length s) 0) :pattern ((str.length s)))))
 (declare-fun xor32 (Int Int) Int)
+(declare-fun fld (Int Int) Int)
+(declare-fun fld.owner (Int) Int)
+(declare-fun fld.idx (Int) Int)
+(define-fun alive ((r Int) (nr Int)) Bool (ite (< r 0) (< (fld.owner r) nr) (< r nr)))
+(assert (forall ((r Int) (i Int)) (! (and (< (fld r i) 0) (= (fld.owner (fld r i)) r) (= (fld.idx (fld r i)) i)) :pattern ((fld r i)))))
 `
 
 const mulUninterp = `(declare-fun mul (Int Int) Int)
@@ -161,6 +166,10 @@ func (so *Sorts) sortOf(t types.Type) string {
 	case *types.Named:
 		if st, ok := u.Underlying().(*types.Struct); ok {
 			name := "S!" + smtSym(shortTypeName(u))
+			if prev, ok := so.structGo[name]; ok && !types.Identical(prev, u) {
+				// two packages with the same name (sync and internal/sync): disambiguate by full path
+				name = "S!" + smtSym(qualTypeName(u))
+			}
 			so.declStruct(name, st, u)
 			return name
 		}
